@@ -83,6 +83,19 @@ pub fn standard_domain(part: &mut Part, seen: &Seen, kind: K, b: usize, lat_runs
     let lengths = if short { enumr::lat_lengths_short(kind) } else { enumr::lat_lengths(kind) };
     let have: std::collections::HashSet<Raw> = d.iter().map(|x| x.v.raw()).collect();
     d.extend(dom_lat(part, seen, kind, &lengths, lat_runs, provs).into_iter().filter(|x| !have.contains(&x.v.raw())));
+    // word lattice at the top lengths: every word in {0,1,MAX,MAX-1,top bit,all but top}
+    let mut have: std::collections::HashSet<Raw> = d.iter().map(|x| x.v.raw()).collect();
+    let w = kind.word();
+    let top = kind.cap().unwrap_or(4 * w);
+    for l in [top, top - 1, top - w + 1] {
+        for m in enumr::wordlat(l, w, !short) {
+            for x in crate::arith::roots_of(part, seen, kind, &m, PROVS_PLAIN) {
+                if have.insert(x.v.raw()) {
+                    d.push(x);
+                }
+            }
+        }
+    }
     d
 }
 
@@ -266,7 +279,13 @@ pub fn run_c09(cfg: &Cfg) -> (Part, Value, bool) {
     for &k in ALL_KINDS {
         let provs: &[Prov] = if k == K::D || k == K::A { &[Prov::Fresh, Prov::Reserve200, Prov::DynExact] } else { PROVS_PLAIN };
         let lengths = if q { enumr::lat_lengths_short(k) } else { enumr::lat_lengths(k) };
-        lat.push(Arc::new(dom_lat(&mut part, &seen, k, &lengths, 2, provs)));
+        let mut v = dom_lat(&mut part, &seen, k, &lengths, 2, provs);
+        let w = k.word();
+        let top = k.cap().unwrap_or(4 * w);
+        for m in enumr::wordlat(top, w, false) {
+            v.extend(crate::arith::roots_of(&mut part, &seen, k, &m, PROVS_PLAIN));
+        }
+        lat.push(Arc::new(v));
     }
     let mut jobs: Vec<(usize, usize, bool)> = Vec::new();
     for i in 0..ALL_KINDS.len() {
@@ -313,7 +332,7 @@ pub fn run_c09(cfg: &Cfg) -> (Part, Value, bool) {
             }
             let (dx, dy) = if is_lat { (&lat[i], &lat[j]) } else { (&small[i], &small[j]) };
             // lattice pairs: every x against every third y (still covers all length pairs and both polarities)
-            let stepy = if is_lat { 3 } else { 1 };
+            let stepy = 1;
             for x in dx.iter() {
                 p.state(&x.v.raw());
                 for y in dy.iter().step_by(stepy) {
@@ -357,7 +376,7 @@ pub fn run_c09(cfg: &Cfg) -> (Part, Value, bool) {
         }
     }
     (part, json!({"full_bound_all_kind_pairs": b, "kind_pairs": ALL_KINDS.len() * ALL_KINDS.len(), "deep_pairs": deep.iter().map(|(a, b2, c)| format!("{}x{} B={}", a.name(), b2.name(), c)).collect::<Vec<_>>(),
-        "lattice": "every kind pair, lattice lengths, <=2 runs, x against every third y", "operators": "== != < <= > >= partial_cmp, Ord::cmp for same type"}), true)
+        "lattice": "every kind pair, lattice lengths, <=2 runs, plus the word lattice ({0,1,MAX} per word) at the top length of both kinds", "operators": "== != < <= > >= partial_cmp, Ord::cmp for same type"}), true)
 }
 
 // ------------------------------------------------------------------------------------------------
